@@ -222,6 +222,7 @@ FindInFrames(stack, i, name) == \* topmost frame first
 (* Operators.                                                              *)
 (***************************************************************************)
 CmpHolds(op, c) == \* c is -1, 0 or 1
+    IF c = 2 THEN op = "notequals" ELSE          \* unordered (a NaN operand): only <> holds
     CASE op = "equals" -> c = 0
       [] op = "notequals" -> c # 0
       [] op = "lessthan" -> c < 0
@@ -335,7 +336,7 @@ IndexLoop(I, acc) ==
     LET a == EvalExpr(I)
     IN  IF Fail(a) THEN a
         ELSE IF IsStr(a.v) THEN RErr(a.I, "type_mismatch")
-        ELSE IF a.v.t = "o" THEN RErr(a.I, "unknown")
+        ELSE IF ~IsFin(NumOf(a.v)) THEN RErr(a.I, "unknown")
         ELSE LET i == NTrunc(NumOf(a.v))
              IN  IF i < 0 THEN RErr(a.I, "illegal_quantity")
                  ELSE IF Peek(a.I).k = "comma" THEN IndexLoop(Adv(a.I), Append(acc, i))
@@ -474,7 +475,7 @@ ExecGoto(I) == \* after GOTO / THEN / ELSE: the target must be a numeric literal
     IF Peek(I).k # "numericliteral" THEN RErr(IF HasTok(I) THEN Adv(I) ELSE I, "undefined_statement")
     ELSE LET v == Peek(I).v
              I1 == [Adv(I) EXCEPT !.bp = NoBp]
-         IN  IF v.t = "o" THEN RErr(I1, "unknown")
+         IN  IF ~IsFin(v) THEN RErr(I1, "unknown")
              ELSE IF GotoKey(v) \in DOMAIN I1.prog THEN ROk([I1 EXCEPT !.loc = Loc(GotoKey(v), 0)], VNum(NZero))
              ELSE RErr(I1, "undefined_statement")
 
@@ -579,7 +580,7 @@ ExecNext(I) ==
              ELSE LET lp == I1.loops[li]
                       kept == SubSeq(I1.loops, 1, li - 1)
                       nv == NAdd(NumOf(cur), lp.step)
-                  IN  IF lp.step.t = "o" \/ nv.t = "o" \/ lp.to.t = "o" THEN RErr(I1, "unknown")
+                  IN  IF ~IsFin(lp.step) \/ ~IsFin(nv) \/ ~IsFin(lp.to) THEN RErr(I1, "unknown")
                       ELSE LET cont == IF ~IsNeg(lp.step) \/ IsZero(lp.step) THEN NCmp(nv, lp.to) <= 0 ELSE NCmp(nv, lp.to) >= 0
                                I2 == IF cont THEN [I1 EXCEPT !.loops = Append(kept, lp), !.loc = lp.loc]
                                      ELSE [I1 EXCEPT !.loops = kept]
